@@ -55,14 +55,15 @@ func (cl *Client) sendToKDC(b []byte, realm string) ([]byte, error) {
 			// Got a KRBError from KDC so returning and not trying UDP.
 			return rb, e
 		}
-		rb, errudp := cl.sendKDCUDP(realm, b)
+		r, errudp := cl.sendKDCUDP(realm, b)
 		if errudp != nil {
 			if e, ok := errudp.(messages.KRBError); ok {
 				// Got a KRBError
-				return rb, e
+				return r, e
 			}
-			return rb, fmt.Errorf("failed to communicate with KDC. Attempts made with TCP (%v) and then UDP (%v)", errtcp, errudp)
+			return r, fmt.Errorf("failed to communicate with KDC. Attempts made with TCP (%v) and then UDP (%v)", errtcp, errudp)
 		}
+		rb = r
 	}
 	return rb, nil
 }
